@@ -120,13 +120,17 @@ def ref_binning(bt, recs, tril):
     return out, sides
 
 
+_EOL = ["\n"]
+
+
 def write_lines(path, rows, gz=False, header=None):
     op = gzip.open if gz else open
-    with op(path, "wt") as f:
+    eol = _EOL[0]
+    with op(path, "wt", newline="") as f:
         if header:
-            f.write(header)
+            f.write(header.replace("\n", eol))
         for r in rows:
-            f.write("\t".join(str(x) for x in r) + "\n")
+            f.write("\t".join(str(x) for x in r) + eol)
 
 
 def bins_bed(d, bt):
@@ -178,6 +182,10 @@ def one_case(ctx, cid, rng, path, idx):
         if any(r[4] == "valid" and (r[1] in edges[r[0]] or r[3] in edges[r[2]]) for r in recs):
             c.feature("records:on-bin-edge")
         shift = 1 if one_based else 0
+        _EOL[0] = "\n"
+        if path in ("cli_pairs", "cli_bg2", "cli_coo") and rng.random() < 0.15:
+            _EOL[0] = "\r\n"                       # text written on another platform
+            c.feature("text:crlf-line-endings")
         want, sides = ref_binning(bt, recs, tril)
         bins = gen.bt_frame(bt)
         nvalid = sum(1 for r in recs if r[4] == "valid")
